@@ -13,7 +13,7 @@ ASSUMPTIONS = ["reference BIP32 in vf/ref/bip32.py, self-tested on BIP32 test ve
 NSHARDS = {"quick": 32, "thorough": 64}
 BUDGET_S = {"quick": 200, "thorough": 1800}
 MIN_HITS = {
-    'quick': {"chain": 262, "step_hardened": 191, "step_normal": 236, "step_path": 297, "pub_derive": 394, "pub_hardened_refused": 118, "corrupt": 6528, "odd_seed": 83},
+    'quick': {"chain": 454, "step_hardened": 347, "step_normal": 381, "step_path": 518, "pub_derive": 705, "pub_hardened_refused": 231, "corrupt": 6528, "odd_seed": 103},
     'thorough': {"chain": 23049, "step_hardened": 17694, "step_normal": 22686, "step_path": 26070, "pub_derive": 36252, "pub_hardened_refused": 10393, "corrupt": 920678, "odd_seed": 6936, "depth255": 9},
 }
 IDX = [0, 1, 2, 2**31 - 2, 2**31 - 1, 2**31, 2**31 + 1, 2**32 - 1]
